@@ -113,5 +113,12 @@ fsv_f64 fsvx_pow(fsv_f64, fsv_f64);
 #define FSV_POW(x, y) pow((x), (y))
 #endif
 
+/* a call that MAY end in an error (any error path is accepted and ends the case), nothing is asserted about it */
+#ifdef __CPROVER__
+#define FSV_THROW_ALLOWED(call) do { fsv_expect_throw = 1; if ((call) != 0) FSV_THROWN(); fsv_expect_throw = 0; } while (0)
+#else
+#define FSV_THROW_ALLOWED(call) do { fsv_expect_throw = 1; if ((call) != 0) FSV_THROWN(); fsv_expect_throw = 0; } while (0)
+#endif
+
 void fsv_harness(void);
 #endif
